@@ -336,6 +336,26 @@ pub fn frozen_stronger_side_stalemates(rng: &mut Rng, tries: usize) -> Vec<Pos> 
     out
 }
 
+/// Roots exactly four plies before a terminal position whose last move is a quiet one (many per terminal position):
+/// the saving / finishing quiet move then sits one ply above the horizon of a depth-4 search.
+pub fn roots_four_plies_before_a_quiet_finish(terminals: &[Pos], rng: &mut Rng, max: usize) -> Vec<(Pos, u8)> {
+    let mut out = vec![];
+    let count = |p: &Pos| p.sq.iter().filter(|x| x.is_some()).count();
+    for t in terminals {
+        for f in retro_predecessors(t, rng, 6).into_iter().filter(|f| count(f) == count(t)).take(3) {
+            for p in retro_predecessors(&f, rng, 4) {
+                for g in retro_predecessors(&p, rng, 2) {
+                    for r in retro_predecessors(&g, rng, 2) { out.push((r, 4u8)); }
+                }
+            }
+        }
+        if out.len() >= max { break; }
+    }
+    rng.shuffle(&mut out);
+    out.truncate(max);
+    out
+}
+
 pub fn roots_before_terminal(rng: &mut Rng, tries: usize, stalemate: bool, max: usize) -> Vec<(Pos, u8)> {
     roots_before(terminal_with_pieces(rng, tries, stalemate), rng, max)
 }
